@@ -26,13 +26,14 @@ type snode struct {
 var c12Names = []string{"a", "b", "c"}
 
 type c12Gen struct {
-	rg     *rng
-	nlit   int
-	macros []string
-	files  map[string]string
-	nfile  int
-	depth  int
-	nmac   int
+	rg      *rng
+	nlit    int
+	macros  []string
+	noparam map[string]bool
+	files   map[string]string
+	nfile   int
+	depth   int
+	nmac    int
 }
 
 func (g *c12Gen) lit() string {
@@ -87,14 +88,23 @@ func (g *c12Gen) node(d int) *snode {
 		mname := fmt.Sprintf("m%d", g.nmac)
 		body := g.body(d - 1) // may call earlier macros only: no recursion
 		g.macros = append(g.macros, mname)
+		if g.rg.chance(1, 3) {
+			// a macro without parameters: its body is a scope of its own all the same
+			if g.noparam == nil {
+				g.noparam = map[string]bool{}
+			}
+			g.noparam[mname] = true
+			return &snode{kind: "macrodef", name: mname, val: "", kids: body}
+		}
 		return &snode{kind: "macrodef", name: mname, val: name, kids: body}
 	case 8:
 		if len(g.macros) > 0 {
-			if g.rg.chance(1, 3) {
-				// the argument is omitted: the parameter is still bound (to nothing)
-				return &snode{kind: "call0", name: g.rg.pick(g.macros)}
+			mn := g.rg.pick(g.macros)
+			if g.noparam[mn] || g.rg.chance(1, 3) {
+				// the argument is omitted: the parameter (if there is one) is still bound (to nothing)
+				return &snode{kind: "call0", name: mn}
 			}
-			return &snode{kind: "call", name: g.rg.pick(g.macros), val: g.lit()}
+			return &snode{kind: "call", name: mn, val: g.lit()}
 		}
 		return &snode{kind: "probe", name: name}
 	}
@@ -240,7 +250,9 @@ func c12Run(ns []*snode, e *c12Env, refs map[*c12Macro]*c12MacroRef, out *string
 			}
 			ref := refs[m]
 			e.push(ref.scope, ref.mscope)
-			e.top()[m.param] = n.val // "" for an omitted argument: bound, and empty
+			if m.param != "" {
+				e.top()[m.param] = n.val // "" for an omitted argument: bound, and empty
+			}
 			var sb strings.Builder
 			c12Run(m.body, e, refs, &sb)
 			e.pop()
